@@ -103,6 +103,15 @@ CLAIMED["C14"] = (
     "DESIGN.md 3.5",
 )
 
+CLAIMED["C19"] = (
+    "btreesim",
+    "deterministic simulation of interleaved holders (trees related by clone edges, registered cursors, live iterators) chosen by a seeded scheduler, against a sorted-dict model, a gap-position cursor model, structure invariants and frozen-node fingerprints; no fault kind applies",
+    "exploration",
+    "Weakest fit of the family (no threads, clock or I/O in the B-tree): claimed because the property is about several holders of shared copy-on-write structure whose operations interleave. Seeded histories of 60-1500 operations over up to 5 trees and 4 cursors for t in {3,4,5,8,64}, in-order optimisation on/off and five key patterns; after every step every tree (not only the one touched) equals its model in lookup/len/order, occupancy bounds, uniform leaf depth and size hold, frozen trees refuse mutation, clones of unfrozen trees are refused, every node reachable from a frozen tree is unchanged by identity, and every cursor/iterator step equals the gap model on the tree's current content.",
+    "Trusted: the sorted-dict and gap-cursor models in checks/c19.py. Unregistered cursors used across mutations are outside the documented contract and not exercised; delete_exact with a non-member element may raise instead of returning None (not part of the property).",
+    "DESIGN.md 3.9",
+)
+
 PENDING_REASON = "check under construction in this session (DESIGN.md section 8 build order); not claimed until its quick command is green on the unchanged tree"
 ALL = [f"C{i:02d}" for i in range(1, 21)]
 
